@@ -301,6 +301,9 @@ type histCase struct {
 	// arguments of one env command; "oneline-display" = the same with an
 	// argument that only displays a variable before each assignment
 	Mode string `json:"mode,omitempty"`
+	// Listing: a bare env line (which lists every variable) comes between the
+	// assignments and the observations
+	Listing bool `json:"listing,omitempty"`
 }
 
 func parseEnvDump(s string) (map[string]string, string) {
@@ -356,6 +359,9 @@ func checkHistory(root string, h histCase) []kit.V {
 			model[a[0]] = a[1]
 		}
 	}
+	if h.Listing {
+		sb.WriteString("env\n")
+	}
 	sb.WriteString("args 0 $X ${X} $Y ${Y} ${X@R} a$X-b\n")
 	sb.WriteString("getenv 1 X\ngetenv 2 Y\ngetenv 4 HOME\nargs 5 a${HOME}b\ngetenv 6 GORACE\nargs 7 a${GORACE}b\n")
 	sb.WriteString("exec henv\ncapstdout 3\n")
@@ -368,6 +374,9 @@ func checkHistory(root string, h histCase) []kit.V {
 	sb.WriteString("-- raw --\n" + rawText + "-- rawcopy --\n" + rawText + "-- exp --\n" + expText)
 	rec, res := runScriptSetup(root, sb.String(), h.Setup)
 	key := func(class string) string {
+		if h.Listing {
+			return fmt.Sprintf("%s setup=%q assignments=%q then-a-bare-env-line", class, h.Setup, h.Assign)
+		}
 		if h.Mode != "" {
 			return fmt.Sprintf("%s %s assignments=%q", class, h.Mode, h.Assign)
 		}
@@ -733,6 +742,14 @@ func realMain() {
 	// arguments that only display a variable in between
 	for _, as := range seqs(vAssigns, 1, 3) {
 		hists = append(hists, histCase{Assign: as, Mode: "oneline"}, histCase{Assign: as, Mode: "oneline-display"})
+	}
+	// the short histories again, with a bare env line (a listing, which changes
+	// nothing) before the observations
+	for _, h := range hists[:len(hists):len(hists)] {
+		if h.Mode == "" && len(h.Assign)+len(h.Setup) <= 2 {
+			h.Listing = true
+			hists = append(hists, h)
+		}
 	}
 	var next int64 = -1
 	for w := 0; w < nw; w++ {
